@@ -120,6 +120,63 @@ def install(taps: Taps, ctx: Ctx, state: Dict[str, Any]) -> None:
     taps.fn(pfr_mod, "get_object_status", status_factory)
 
 
+def _nan(v: Any) -> bool:
+    return v is None or (isinstance(v, float) and math.isnan(v))
+
+
+def align_rows(ctx: Ctx, rows: List[Dict[str, Any]], gt_rows: Any, est_rows: Any) -> List[Dict[str, Any]]:
+    """Expected items re-ordered into the table's order. Falls back to the items' own order (TP, FP, TN, FN per frame) when
+    the table's rows cannot be assigned one-to-one: the per-row comparison then reports what differs."""
+
+    def side(row):
+        if _nan(row["status"]):
+            return None
+        return (str(row["uuid"]), str(row["label"]))
+
+    def obj_side(o):
+        return None if o is None else (str(o.uuid), O.lab_of(o))
+
+    table: Dict[Any, List[int]] = {}
+    for i in range(len(rows)):
+        g, e = gt_rows.iloc[i], est_rows.iloc[i]
+        ref = g if not _nan(g["status"]) else e
+        if _nan(ref["status"]):
+            return rows
+        key = (str(ref["status"]), int(ref["scene"]), int(ref["frame"]), side(g), side(e))
+        table.setdefault(key, []).append(i)
+    items: Dict[Any, List[int]] = {}
+    for k, r in enumerate(rows):
+        key = (r["status"], r["scene"], r["frame"], obj_side(r["gt"]), obj_side(r["est"]))
+        items.setdefault(key, []).append(k)
+    if set(table) != set(items) or any(len(table[k]) != len(items[k]) for k in table):
+        return rows
+    out: List[Any] = [None] * len(rows)
+
+    def row_xy(i):
+        g, e = gt_rows.iloc[i], est_rows.iloc[i]
+        ref = g if not _nan(g["status"]) else e
+        return (float(ref["x"]), float(ref["y"]))
+
+    def item_xy(k):
+        r = rows[k]
+        pose = r["gt_pose"] if r["gt"] is not None else r["est_pose"]
+        return (float(pose[0]), float(pose[1]))
+
+    moved = False
+    for key, idxs in table.items():
+        ks = items[key]
+        if len(idxs) > 1:
+            idxs = sorted(idxs, key=row_xy)
+            ks = sorted(ks, key=item_xy)
+        for i, k in zip(idxs, ks):
+            out[i] = rows[k]
+            moved = moved or i != k
+    if moved:
+        ctx.count("C19.tables_in_another_row_order")
+    return out
+
+
+
 def judge_table(ctx: Ctx, an: Any, scenes: List[List[Any]]) -> None:
     tap = "analyzer"
     ctx.count("analyzer.tables_judged")
@@ -164,6 +221,10 @@ def judge_table(ctx: Ctx, an: Any, scenes: List[List[Any]]) -> None:
     gt_rows = df.xs("ground_truth", level=1)
     est_rows = df.xs("estimation", level=1)
     paired = 0
+    # The statement promises one row pair per item, not where in the table it stands: row pairs are assigned to the frames'
+    # items by what they say they are (scene, frame, status, ids and labels of both sides; equal ones by position in the
+    # ego frame), and everything below is read in the table's own order.
+    rows = align_rows(ctx, rows, gt_rows, est_rows)
     ecd = an.config.evaluation_config_dict
     grid = (float(ecd["max_x_position"]), float(ecd["max_y_position"])) if ("max_x_position" in ecd and "max_y_position" in ecd) else None
     cells: Dict[Any, set] = {}
